@@ -457,6 +457,17 @@ func (s *Sim) cfgClass() string {
 	if s.Cfg.TaskBatch <= 3 {
 		parts = append(parts, "tb<=3")
 	}
+	// a registration whose derived task id is already taken by a task: its promise can neither
+	// be completed nor time out (the conversion's insert violates the key), and every store batch
+	// that contains the attempt fails as a whole
+	if s.Last != nil {
+		for id := range s.Last.Callbacks {
+			if s.Last.Tasks[id] != nil {
+				parts = append(parts, "collision")
+				break
+			}
+		}
+	}
 	if len(parts) == 0 {
 		return "sizes>=2"
 	}
